@@ -541,33 +541,56 @@ def gen_hdr(rng, cases):
         nc = 3; hv = hv[:3]
     arith, opt = (1, rng.below(2)) if rng.chance(1, 3) else (0, rng.below(2))
     ri = rng.choice([0, 0, 4])
+    W = rng.choice([8, 17, 40])
     if fam.startswith("lossless"):
-        arith, ri = 0, 0          # (jclossls.c requires restart_interval to be a multiple of MCUs_per_row: not modelled)
-    line = setup_line(rng.choice([8, 17, 40]), rng.choice([8, 9, 33]), nc, nc, prec, lossless, 0, arith, opt, 0,
+        arith = 0
+        ri = rng.choice([0, 0, 4, W, 2 * W, W + 1])     # jclossls.c: must be a multiple of MCUs_per_row (= width)
+    line = setup_line(W, rng.choice([8, 9, 33]), nc, nc, prec, lossless, 0, arith, opt, 0,
                       ri, rng.choice([0, 0, 1]), hv, script)
     cases.append(("hdr" + line[5:], "hdr-" + fam.split("-")[0], {"nscans": len(script) if script else 1}))
 
 
-def tn_expect(path, which, idx, arith, opt):
-    """jpeg_set_defaults: quant tables 0,1; Huffman tables 0,1 (DC and AC); arithmetic tables 0..15"""
+def tn_expect(path, which, idx, arith, opt, mode):
+    """jpeg_set_defaults: quant tables 0,1; Huffman tables 0,1 (DC and AC); arithmetic tables 0..15.
+    returns ok | <error name> | err (any clean error) | clean (ok or any clean error)"""
+    if mode == 2:                       # lossless: the component list is rebuilt (table numbers reset), no quantisation
+        return "clean"
     if which == 0:
         return "ok" if idx in (0, 1) else "NoQuantTable"
     if arith:
         return "ok" if 0 <= idx <= 15 else "err"
-    if opt:
+    if opt or mode == 1:                # tables are generated by the statistics pass
         return "ok" if 0 <= idx <= 3 else "NoHuffTable"
     return "ok" if idx in (0, 1) else "NoHuffTable"
 
 
 def tn_cases(cases):
-    """table numbers of a component at / beyond NUM_QUANT_TBLS, NUM_HUFF_TBLS, NUM_ARITH_TBLS on both paths"""
+    """table numbers of a component at / beyond NUM_QUANT_TBLS, NUM_HUFF_TBLS, NUM_ARITH_TBLS: compress / transcode x
+    sequential / progressive / lossless x Huffman / optimised / arithmetic"""
     for path in (0, 1):
-        for which in (0, 1, 2):
-            for idx in (-1, 0, 1, 2, 3, 4, 5, 15, 16, 40):
-                for arith, opt in ((0, 0), (0, 1), (1, 0)):
-                    cases.append(("tn %d %d %d %d %d" % (path, which, idx, arith, opt), "tn",
-                                  {"tag": "tblno-%d-%d-%d-%d-%d" % (path, which, idx, arith, opt), "nscans": None,
-                                   "expect_tn": tn_expect(path, which, idx, arith, opt)}))
+        for mode in (0, 1, 2):
+            for which in (0, 1, 2):
+                for idx in (-1, 0, 1, 2, 3, 4, 5, 15, 16, 40):
+                    for arith, opt in ((0, 0), (0, 1), (1, 0)):
+                        if mode == 2 and arith:
+                            continue
+                        cases.append(("tn %d %d %d %d %d %d" % (path, which, idx, arith, opt, mode), "tn",
+                                      {"tag": "tblno", "nscans": None, "expect_tn": tn_expect(path, which, idx, arith, opt, mode)}))
+
+
+def api_cases(cases):
+    """jpeg_write_tables + abbreviated image (all coder combinations); jpeg_write_marker in every API state"""
+    for nc in (1, 3):
+        for arith in (0, 1):
+            for opt in (0, 1):
+                for prog in (0, 1):
+                    cases.append(("wt %d %d %d %d" % (nc, arith, opt, prog), "wt", {"nscans": None}))
+    for state in (0, 1, 2, 3, 4, 5):
+        for ln in (0, 1, 5, 300, 65533, 65534, 70000):
+            if state == 4 and ln > 65533:
+                continue
+            for code in (254, 229):
+                cases.append(("wm %d %d %d" % (state, ln, code), "wm", {"nscans": None}))
 
 
 def gen_rst(rng, cases):
@@ -703,6 +726,8 @@ def oracle_verdict(kind, meta, line):
         return "stream does not end with EOI"
     if f.get("warn") != "0":
         return "own decompressor reports %s warning(s)" % f.get("warn")
+    if kind == "wm" and " m=0" in mpart:
+        return "the marker written by jpeg_write_marker is not in the stream between the file header and the frame header"
     if "same" in f and f["same"] != "1":
         return {"0": "coefficients differ from the reference encoding (no restarts / one iMCU row per call)",
                 "-1": "stream or reference stream cannot be read back by jpeg_read_coefficients",
@@ -806,6 +831,7 @@ def run(ctx):
     for _ in range(ctx.n(300, 8000)):
         gen_hdr(rng, cases)
     tn_cases(cases)
+    api_cases(cases)
     return run_cases(ctx, cases, exes, drv, flavours)
 
 
@@ -836,6 +862,8 @@ def run_cases(ctx, cases, exes, drv, flavours):
             for fl in flavours:
                 mp = outs[fl][i].split(" # ")[0]
                 got = "ok" if mp.startswith("ok") else ("err" if etn == "err" and mp.startswith("err ") else mp.replace("err ", ""))
+                if etn == "clean" and (mp.startswith("ok") or mp.startswith("err ")):
+                    got = "clean"
                 if not mp.startswith("<") and got != etn:
                     ctx.violation("table number case %s (%s build): expected %s, got %s" % (line, fl, etn, mp[:60]),
                                   dict(rep, flavour=fl), signature="tblno:%s" % line.replace(" ", "-"))
